@@ -51,7 +51,7 @@ ASSUME IOEnv.OUT_FILE = "" \/
 \* name -> rows translation under test: the code's (facet names before edge names) or the candidate repair
 RowsCode(b, names, skip)  == DofnamesToRowsImpl(b, names, skip)
 RowsFixed(b, names, skip) == DofnamesToRowsFixed(b, names, skip)
-RowsInUse(b, names, skip) == RowsCode(b, names, skip)
+RowsInUse(b, names, skip) == RowsFixed(b, names, skip)      \* current code (after fix 28a0105); RowsCode = before
 
 BasisOf(m, c, sg) ==
   LET d == NumberDofsImpl(m.kind, m.nv, Len(c.edges), Len(c.facets), m.t, c.t2e, c.t2f, sg.sig) IN
@@ -75,7 +75,8 @@ CodeNameOffset(b, kc) ==
       ne == IF UsesE(b.kind, b.sig) THEN b.sig.e ELSE 0
   IN CASE kc = "v" -> 0 [] kc = "f" -> b.sig.n [] kc = "e" -> b.sig.n + nf [] kc = "c" -> b.sig.n + nf + ne
 OffsetFixed(b, kc) == NameOffset(b, kc)
-OffsetInUse(b, kc) == CodeNameOffset(b, kc)
+OffsetCode(b, kc) == CodeNameOffset(b, kc)                   \* offsets before fix 28a0105 (nodal, facet, edge)
+OffsetInUse(b, kc) == OffsetFixed(b, kc)
 DictImpl(b, vw, kc, nm) ==
   LET ix   == CASE kc = "v" -> vw.nix [] kc = "f" -> vw.fix [] kc = "e" -> vw.eix [] kc = "c" -> vw.iix
       rows == CASE kc = "v" -> vw.nrows [] kc = "f" -> vw.frows [] kc = "e" -> vw.erows [] kc = "c" -> vw.irows
